@@ -197,7 +197,8 @@ def cfg_desc(cfg):
 
 
 def norm(xs):
-  return [int(x) for x in xs]
+  """Normalises delivered elements (ints, or batch records of a sliced shape)."""
+  return [norm_out(x) for x in xs]
 
 
 def transport(state, how):
@@ -275,16 +276,74 @@ def f3(x):
   return 2 * x + 5
 
 
-# shape -> list of (stage name, fn, aggregate output key or None)
+def to_batch(v):
+  """Source value -> one record = a batch of 1..3 rows with feature columns.
+
+  f is constant inside a batch and changes every two records, so slice values
+  first appear at different points of the stream; g alternates inside a batch.
+  """
+  v = int(v)
+  rows = 1 + v % 3
+  return {'x': [7 * v + j for j in range(rows)],
+          'f': [(v // 2) % 3] * rows,
+          'g': [j % 2 for j in range(rows)]}
+
+
+def relabel(r):
+  return {'x': [2 * x + 1 for x in r['x']], 'f': list(r['f']),
+          'g': list(r['g'])}
+
+
+class BatchAggInplace:
+  """Exact aggregator over a column (batch of rows); mutates its state."""
+
+  def create_state(self):
+    return [0, 0, 0]
+
+  def update_state(self, state, xs):
+    for x in xs:
+      state[0] += int(x)
+      state[1] += 1
+      state[2] ^= _h(x)
+    return state
+
+  def merge_states(self, states):
+    out = [0, 0, 0]
+    for st in states:
+      out[0] += st[0]
+      out[1] += st[1]
+      out[2] ^= st[2]
+    return out
+
+  def get_result(self, state):
+    return list(state)
+
+
+class BatchAggFunctional(BatchAggInplace):
+
+  def update_state(self, state, xs):
+    out = list(state)
+    return BatchAggInplace.update_state(self, out, xs)
+
+
+# shape -> list of (stage name, fn, aggregate output key or None, sliced?)
 SHAPES = {
-    'single': [('', f1, 'agg')],
-    'named': [('a', f1, 'agg')],
-    'noagg': [('', f1, None)],
-    'chain_last': [('a', f1, None), ('b', f2, 'agg')],
-    'chain_first': [('a', f1, 'agg'), ('b', f2, None)],
-    'chain_both': [('a', f1, 'agga'), ('b', f2, 'aggb')],
-    'chain3': [('a', f1, None), ('b', f2, 'aggb'), ('c', f3, 'aggc')],
+    'single': [('', f1, 'agg', False)],
+    'named': [('a', f1, 'agg', False)],
+    'noagg': [('', f1, None, False)],
+    'chain_last': [('a', f1, None, False), ('b', f2, 'agg', False)],
+    'chain_first': [('a', f1, 'agg', False), ('b', f2, None, False)],
+    'chain_both': [('a', f1, 'agga', False), ('b', f2, 'aggb', False)],
+    'chain3': [('a', f1, None, False), ('b', f2, 'aggb', False),
+               ('c', f3, 'aggc', False)],
+    # records are batches (dict of columns); aggregate over column x with the
+    # slicers add_slice('f') and add_slice(('f', 'g'))
+    'sliced': [('', to_batch, 'agg', True)],
+    'sliced_chain': [('a', to_batch, None, False), ('b', relabel, 'agg', True)],
+    'sliced_both': [('a', to_batch, 'agga', True), ('b', relabel, 'aggb', True)],
 }
+SLICED_SHAPES = ('sliced', 'sliced_chain', 'sliced_both')
+SLICERS = (('f',), ('f', 'g'))
 
 
 class Sleepy:
@@ -304,52 +363,103 @@ class Sleepy:
 def build_pipeline(shape, ds, aggmode='inplace', threads=0, delays=None):
   from ml_metrics._src.chainables import transform
   T = transform.TreeTransform
-  agg_cls = ExactAggInplace if aggmode == 'inplace' else ExactAggFunctional
   p = None
-  for si, (name, fn, key) in enumerate(SHAPES[shape]):
+  for si, (name, fn, key, sliced) in enumerate(SHAPES[shape]):
     if si == 0:
       if delays:
         fn = Sleepy(fn, delays)
       t = T.new(name=name, num_threads=threads).data_source(ds).apply(fn)
     else:
       t = T.new(name=name).apply(fn)
-    if key is not None:
-      t = t.aggregate(fn=agg_cls(), output_keys=key)
+    if key is not None and not sliced:
+      cls = ExactAggInplace if aggmode == 'inplace' else ExactAggFunctional
+      t = t.aggregate(fn=cls(), output_keys=key)
+    elif key is not None:
+      cls = BatchAggInplace if aggmode == 'inplace' else BatchAggFunctional
+      t = t.aggregate(fn=cls(), input_keys='x', output_keys=key)
+      for feats in SLICERS:
+        t = t.add_slice(feats[0] if len(feats) == 1 else feats)
     p = t if p is None else p.chain(t)
   return p
 
 
+def slice_key(key, feats, vals):
+  return '%s|%s|%s' % (key, ','.join(feats), ','.join(str(v) for v in vals))
+
+
+def _sliced_aggs(key, records):
+  groups = {key: []}
+  for r in records:
+    for j, x in enumerate(r['x']):
+      groups[key].append(x)
+      for feats in SLICERS:
+        vals = tuple(r[f][j] for f in feats)
+        groups.setdefault(slice_key(key, feats, vals), []).append(x)
+  return {k: agg_of(v) for k, v in groups.items()}
+
+
+def norm_out(o):
+  if isinstance(o, dict):
+    return ('rec', tuple(int(x) for x in o['x']), tuple(int(x) for x in o['f']),
+            tuple(int(x) for x in o['g']))
+  return int(o)
+
+
+def norm_outs(outs):
+  return [norm_out(o) for o in outs]
+
+
 def model_pipeline(shape, xs):
-  """(outputs, {agg key: [sum, count, xor]} or None) for source values xs."""
+  """(normalised outputs, {normalised agg key: [sum, count, xor]} or None)."""
   cur = list(xs)
   aggs = {}
-  for (_, fn, key) in SHAPES[shape]:
+  for (_, fn, key, sliced) in SHAPES[shape]:
     cur = [fn(x) for x in cur]
-    if key is not None:
+    if key is not None and sliced:
+      aggs.update(_sliced_aggs(key, cur))
+    elif key is not None:
       aggs[key] = agg_of(cur)
-  return cur, (aggs or None)
+  return norm_outs(cur), (aggs or None)
 
 
 def upstream_agg_keys(shape):
   stages = SHAPES[shape]
-  return [key for (_, _, key) in stages[:-1] if key is not None]
+  return [key for (_, _, key, _s) in stages[:-1] if key is not None]
+
+
+def base_key(k):
+  return k.split('|', 1)[0]
+
+
+_INVERSE = {}
 
 
 def source_value_of_output(shape):
   """Inverse of the stage composition on the value domain used here."""
+  if shape not in _INVERSE:
+    def fwd(x):
+      for (_, fn, _k, _s) in SHAPES[shape]:
+        x = fn(x)
+      return norm_out(x)
 
-  def fwd(x):
-    for (_, fn, _k) in SHAPES[shape]:
-      x = fn(x)
-    return x
+    _INVERSE[shape] = {fwd(BASE + g): BASE + g for g in range(0, 400)}
+  return _INVERSE[shape]
 
-  return {fwd(BASE + g): BASE + g for g in range(0, 400)}
+
+def norm_key(k):
+  if isinstance(k, str):
+    return k
+  sl = k.slice
+  metrics = k.metrics if isinstance(k.metrics, str) else ','.join(k.metrics)
+  if not sl.features:
+    return metrics
+  return slice_key(metrics, tuple(sl.features), tuple(sl.values))
 
 
 def norm_agg(res):
   if res is None:
     return None
-  return {str(k): [int(v) for v in vals] for k, vals in dict(res).items()}
+  return {norm_key(k): [int(v) for v in vals] for k, vals in dict(res).items()}
 
 
 def drain(it):
